@@ -1,6 +1,7 @@
 import DracoProofs.SeqAttrs
 import DracoProofs.SeqConn
 import DracoProofs.MetadataStatus
+import DracoModel.Decoder
 /-
   The composed round trip of the sequential point cloud / mesh coders:
   header, metadata, geometry data (number of points / connectivity), attributes.
@@ -157,11 +158,12 @@ theorem runs_metadataStep {β : Type} (k : Option GeometryMetadata → DecM β)
     · cases hmdb
 
 /-- the composed theorem in `Runs` form -/
-theorem runs_decodeGeometry (ch : Choices) (g : Geometry) (md : Option GeometryMetadata)
+theorem runs_decodeStreamWith (eb kd : DecOpts → DecM Geometry)
+    (ch : Choices) (g : Geometry) (md : Option GeometryMetadata)
     (opts : EncOpts) (bs : Bytes) (encs : List AttEnc) (hok : GeomOK g opts)
     (hmd : ∀ m, md = some m → m.WF')
     (henc : encodeGeometryFull ch g md opts = some (bs, encs)) :
-    Runs (decodeGeometry {}) 0 bs ⟨expectedGeometry g encs, md⟩
+    Runs (decodeStreamWith eb kd {}) 0 bs ⟨expectedGeometry g encs, md⟩
       (if g.isMesh then bsVersion 2 2 else bsVersion 2 3) := by
   unfold encodeGeometryFull at henc
   split at henc
@@ -176,7 +178,7 @@ theorem runs_decodeGeometry (ch : Choices) (g : Geometry) (md : Option GeometryM
       · rename_i ab encs' hab
         simp only [Option.some.injEq, Prod.mk.injEq] at henc
         obtain ⟨rfl, rfl⟩ := henc
-        unfold decodeGeometry
+        unfold decodeStreamWith
         simp only [List.append_assoc]
         refine Runs.bind (runs_decodeHeader g.isMesh md.isSome 0) ?_
         cases hm : g.isMesh with
@@ -193,7 +195,8 @@ theorem runs_decodeGeometry (ch : Choices) (g : Geometry) (md : Option GeometryM
           have hatts := runs_decodePointAttributes ch opts g.numPoints (bsVersion 2 2) g.atts ab encs'
             (by decide) hok.points hok.points31 hok.natts hok.atts hab
           refine runs_metadataStep _ md mdBytes _ _ (bsVersion 2 2) (bsVersion 2 2) _ (by decide) rfl hmd hmdb ?_
-          rw [if_neg (by show ¬ (false = true); exact Bool.false_ne_true)]
+          rw [if_neg (by show ¬ (false = true); exact Bool.false_ne_true),
+            if_neg (by show ¬ (false = true); exact Bool.false_ne_true)]
           refine Runs.bind hconn ?_
           refine Runs.bind' hatts (List.append_nil _).symm ?_
           refine Runs.of_eq (Runs.pure _ _) rfl rfl ?_
@@ -220,13 +223,24 @@ theorem runs_decodeGeometry (ch : Choices) (g : Geometry) (md : Option GeometryM
             split <;> omega
           rw [hnp]
           refine runs_metadataStep _ md mdBytes _ _ (bsVersion 2 3) (bsVersion 2 3) _ (by decide) rfl hmd hmdb ?_
-          rw [if_neg (by show ¬ (false = true); exact Bool.false_ne_true)]
+          rw [if_neg (by show ¬ (false = true); exact Bool.false_ne_true),
+            if_neg (by show ¬ (false = true); exact Bool.false_ne_true)]
           refine Runs.bind (Runs.rdI32 _ _ (by omega)) ?_
           rw [hsgn]
           refine Runs.bind0 (Runs.declare _ _) ?_
           refine Runs.bind' hatts (List.append_nil _).symm ?_
           refine Runs.of_eq (Runs.pure _ _) rfl rfl ?_
           simp [expectedGeometry, hm]
+
+/-- the same for the complete decoder `decodeGeometry` (sequential streams never reach the
+    Edgebreaker body decoder) -/
+theorem runs_decodeGeometry (ch : Choices) (g : Geometry) (md : Option GeometryMetadata)
+    (opts : EncOpts) (bs : Bytes) (encs : List AttEnc) (hok : GeomOK g opts)
+    (hmd : ∀ m, md = some m → m.WF')
+    (henc : encodeGeometryFull ch g md opts = some (bs, encs)) :
+    Runs (decodeGeometry {}) 0 bs ⟨expectedGeometry g encs, md⟩
+      (if g.isMesh then bsVersion 2 2 else bsVersion 2 3) :=
+  runs_decodeStreamWith Eb.decodeEdgebreaker Kd.decodeKdGeometry ch g md opts bs encs hok hmd henc
 
 /-! ### the decoded geometry does not depend on the choices -/
 
